@@ -353,6 +353,36 @@ def check_C07(ctx, rt):
                         break
         except ValueError:
             pass
+        # the alphabet reflects the table in force also after the caller edits the dict it passed in / got back, and
+        # after a rejected update (the table in force is what get_semantic_constraints() reports)
+        for tname, tab in tabs[:rt.n(8, 60)]:
+            mine = dict(tab)
+            sf.set_semantic_constraints(mine)
+            got = sf.get_semantic_constraints()
+            for k in list(mine)[:3]:
+                mine[k] = 0 if mine[k] else 3          # caller-side edits, no library call
+            mine["Fe"] = 5
+            got["Zn"] = 1
+            try:
+                bad = dict(mine)
+                bad["Fe"] = -2
+                sf.set_semantic_constraints(bad)
+            except ValueError:
+                pass
+            ctx.evaluations += 1
+            cur = sf.get_semantic_constraints()
+            if cur != dict(tab):
+                add_violation(ctx, "C07:table-changed-by-caller", "the table in force changed without a successful update",
+                              table=tab, now=cur)
+                continue
+            want = set(gens.INDEX) | set(gens.BRANCH) | {"[Ring1]", "[Ring2]", "[Ring3]", "[=Ring1]", "[=Ring2]", "[=Ring3]"}
+            for k, c in cur.items():
+                if k != "?":
+                    for b, m in (("", 1), ("=", 2), ("#", 3)):
+                        if m <= c:
+                            want.add("[%s%s]" % (b, k))
+            if set(sf.get_semantic_robust_alphabet()) != want:
+                add_violation(ctx, "C07:stale", "alphabet does not reflect the table in force after caller-side edits", table=tab)
         # reflects the table in force at the time of the call
         sf.set_semantic_constraints("hypervalent")
         a1 = sf.get_semantic_robust_alphabet()
@@ -547,6 +577,25 @@ def check_C16(ctx, rt):
         strings.append(s)
         if sf.decoder(s) != smi:
             add_violation(ctx, "C16:translator", "branch of length %d does not come back" % n, output=sf.decoder(s)[:80])
+    # a missing symbol at the END of the string counts as digit 0: the decoder on a string that ends inside the index
+    # of a ring / branch symbol must equal the decoder on the same string padded with [C] (digit 0)
+    trunc = []
+    for natoms in (3, 8, 20, 40, 300):
+        for L, kind in ((2, "Ring2"), (3, "Ring3"), (2, "Branch2"), (3, "Branch3"), (1, "Ring1"), (1, "Branch1"), (2, "=Ring2"), (3, "#Branch3")):
+            for present in itertools.product(gens.INDEX[:4] + ["[O]", "[P]", "[F]"], repeat=L - 1 if L > 1 else 0):
+                for cut in range(0, L):
+                    head = "[C]" * natoms + "[%s]" % kind + "".join(present[:cut])
+                    missing = L - cut
+                    trunc.append((head, head + "[C]" * missing))
+                    trunc.append(("[N][C]." + head, "[N][C]." + head + "[C]" * missing))
+                    trunc.append((head + ".[O]", head + "[C]" * missing + ".[O]"))
+    for a, b in trunc:
+        ctx.evaluations += 1
+        ra, rb = impl.real_decoder(a), impl.real_decoder(b)
+        if ra != rb:
+            add_violation(ctx, "C16:missing-at-end", "a missing index symbol at the end of the string does not count as digit 0",
+                          truncated=a[-120:], padded=b[-120:], got=ra[:200], want=rb[:200])
+    run_decoder_stream(ctx, rt, "truncated-index", [a for a, _b in trunc][::3], "default", sf.get_preset_constraints("default"))
     run_decoder_stream(ctx, rt, "crafted", strings, "default", sf.get_preset_constraints("default"))
     ctx.exhaustive = True
     ctx.sample({"n": 57, "symbols": get_selfies_from_index(57)})
